@@ -230,6 +230,17 @@ def run(prop, tier):
                 smp = [0] * ((n // 2) * ch) + [a if i % 2 else -a for i in range((n - n // 2) * ch)]
             wins.append(smp)
         ref_dec = [bool(AudioEnergyValidator(T, w, ch, use_channel=uc).is_valid(pack(smp, w))) for smp in wins]
+        # two validators with different settings called alternately on the same window objects: a decision belongs to its validator
+        va_, vb_ = AudioEnergyValidator(T, w, ch, use_channel=uc), AudioEnergyValidator(T + 45, w, ch, use_channel=("mix" if uc != "mix" else None))
+        alt = []
+        for smp in wins:
+            raw_ = pack(smp, w)
+            first_ = bool(va_.is_valid(raw_)); vb_.is_valid(raw_); again_ = bool(va_.is_valid(raw_))
+            alt.append(first_ if first_ == again_ else "first %r, after the other validator %r" % (first_, again_))
+            mono_checked += 1
+        if viol is None and alt != ref_dec:
+            viol = {"what": "a validator (threshold %d dB) called alternately with a second validator (threshold %d dB, other channel selection) on the same window objects decides %r, alone %r" % (T, T + 45, alt, ref_dec),
+                    "width": w, "n_channels": ch, "use_channel": uc, "windows_interleaved_samples": wins}
         shared = {"b": AudioEnergyValidator(T, w, ch, use_channel=uc), "m": AudioEnergyValidator(T, w, ch, use_channel=uc)}
         buf = bytearray(n * ch * w)
         mv = memoryview(buf)
